@@ -26,6 +26,7 @@ EXPLANATION = (
     "created in this activation and hands that same object to _send_request. Interleavings against a peer are not decided."
     ' (R6) timer typestate: at most one live timeout. (R7) one lock per object and loop: _ensure_lock creates a lock only when none exists or the loop changed, and nobody else rebinds _lock / _running_loop. (R8) datagram transport with keep-alive off: on no path is the lock released with the socket of this activation still open while another task can run.'
     ' (R9) the transport is written only by _send_request (callbacks do not transmit).'
+    " (R1, foreign-writer) the in-flight attributes of a protocol object are assigned only by the protocol classes' own methods, never through another reference (e.g. protocol.command = ... in execute)."
 )
 
 INFLIGHT = ("command", "response_future", "_partial_data", "_partial_missing", "_timer")
